@@ -591,8 +591,34 @@ func (m *Machine) installPrelude() {
 			return []Value{FormatNumber(v)}
 		case string:
 			return []Value{v}
+		case *Table:
+			if v.Meta != nil {
+				if h := v.Meta.Get("__tostring"); h != nil {
+					m.pushCtx("meta")
+					rs := m.call(h, []Value{v})
+					m.popCtx()
+					if s, ok := arg(rs, 0).(string); ok {
+						return []Value{s}
+					}
+					m.rtError("'__tostring' must return a string")
+				}
+			}
 		}
-		panic("model: tostring of an object is outside SimLua")
+		panic("model: tostring of an object without __tostring is outside SimLua")
+	})
+	// string.format, "%s" only. gopher-lua does not consult __tostring here (a table is shown by its address), so the
+	// text for a table is never compared: programs look at the type of the result only.
+	m.bind("strformat", func(m *Machine, args []Value) []Value {
+		m.step()
+		switch v := arg(args, 1).(type) {
+		case float64:
+			return []Value{FormatNumber(v)}
+		case string:
+			return []Value{v}
+		case *Table:
+			return []Value{"<table text>"}
+		}
+		panic("model: string.format of this value is outside SimLua")
 	})
 	m.bind("type", func(m *Machine, args []Value) []Value {
 		m.step()
